@@ -114,3 +114,20 @@ package fieldmask
 
 //@ func (p *pathIterator) LeftPath() string
 //@   requires p != nil && wfIt(p)
+
+// ---- path membership (path.go) ----
+
+//@ pure func wfSDs() bool { return forall x *thrift_reflection.StructDescriptor :: x != nil ==> forall i int :: 0 <= i && i < len(x.Fields) ==> x.Fields[i] != nil }
+
+//@ func newPathIter(src string) pathIterator
+//@   ensures result.src == src && result.pos == 0
+
+//@ func (p *pathIterator) HasNext() bool
+//@   requires p != nil
+//@   ensures result == (p.pos < len(p.src))
+
+//@ func (cur *FieldMask) GetPath(desc *thrift_reflection.TypeDescriptor, path string) (*FieldMask, bool)
+//@   requires desc != nil && wfSDs()
+//@   loop 1 invariant desc != nil && 0 <= it.pos && it.pos <= len(it.src)
+//@   loop 1.1 invariant desc != nil && et != nil && cur != nil && 0 <= it.pos && it.pos <= len(it.src)
+//@   loop 1.2 invariant desc != nil && et != nil && cur != nil && 0 <= it.pos && it.pos <= len(it.src)
